@@ -270,6 +270,17 @@ class STL(object):
 
     str_length = str_size
 
+    def _sval(self, ex, st, recv):
+        return ex.load(st, ex.deref(st, recv), "S") if recv.sort == "P" else recv
+
+    def str_substr(self, ex, st, n, name, recv, args):
+        """std::string::substr(pos, n): throws std::out_of_range unless pos <= size() (recorded as a side obligation)"""
+        v = self._sval(ex, st, recv)
+        pos = ex.coerce(args[0], "I") if args else tm.num(0, "I")
+        size = tm.app("strlen", (v,), "I")
+        self.side.append(("std::string::substr pos <= size()", list(st.pc), tm.le(pos, size)))
+        return [(st, tm.app("substr", tuple([v, pos] + [ex.coerce(a, "I") for a in args[1:]]), "S"))]
+
     def str_empty(self, ex, st, n, name, recv, args):
         v = ex.load(st, ex.deref(st, recv), "S") if recv.sort == "P" else recv
         return [(st, tm.eq(tm.app("strlen", (v,), "I"), tm.num(0, "I")))]
